@@ -152,6 +152,10 @@ def run(tier, seed):
     for b in sel:
         inputs.append(("clauses", K.render(b) + "\n", {}, []))
     print(f"  t={time.time()-t0:.0f}s generators done", flush=True)
+    # scripts that yield no entity at all, or only non-table entities: the shape rules (list / bucket dict / JSON string) still apply
+    for i, t in enumerate(["", "\n", "GO\n", "USE db1;\nGRANT ALL ON x TO y;\n", "-- only a comment\n", "INSERT INTO t VALUES (1);\n",
+                           "SET a = 1;\n", "CREATE SEQUENCE s1 START 1;\nSET b = 2;\n", "/* block */\nCREATE SCHEMA sc1;\n"]):
+        inputs.append((f"special:{i}", t, {}, []))
     corp = CP.harvest()
     for i, r in enumerate(corp):
         inputs.append((f"corpus:{i}", r["text"], r["ctor"], []))
